@@ -38,7 +38,7 @@ func scaleFamiliesBuild() []*scaleFam {
 		{"root selectors with a variable of their own, value after value", "C10"}, {"faults inside a root selector are positioned in the selector", "C11"}, {"faults inside a root selector are positioned in the selector", "C20"},
 		{"n control-flow signals that leave a match arm, a call or a loop through an expression", "C08"}, {"n control-flow signals that leave a match arm, a call or a loop through an expression", "C02"},
 		{"a match case with an expression body that is left by next", "C08"}, {"a failing operator in every kind of rule", "C05"},
-		{"what one special rule stores in $ and what the next one sees", "C15"}} {
+		{"what one special rule stores in $ and what the next one sees", "C15"}, {"what -o writes when a BEGINFILE rule ends the run", "C04"}} {
 		for _, f := range all {
 			if f.Name == also[0] {
 				g := *f
